@@ -25,7 +25,7 @@ NUMBERED = ['w-2', '1099-int', '1099-div', '1099-r', '1099-g', '1098']
 LISTING = re.compile(r'^1040_sb\.(1|5)_(payer|amount)_(\d+)$')
 
 DEDUCTIBLE = [
-    r'^1040_sa\.(medical_dental_expenses|state_local_real_estate_taxes|state_local_personal_property_taxes|other_taxes_amount|other_mortgage_interest|charitable_cash_check|charitable_carryover|other_itemized)$',
+    r'^1040_sa\.(medical_dental_expenses|state_local_real_estate_taxes|state_local_personal_property_taxes|other_taxes_amount|other_mortgage_interest|charitable_cash_check|charitable_other_than_cash_check|charitable_carryover|other_itemized)$',
     r'^1040_s1\.(alimony_paid|traditional_ira_deduction|other_adjustments_amount)$',
     r'^1099-int:\d+\.box_2$',
     r'^1098:\d+\.box_1$',
